@@ -22,7 +22,10 @@ ASSUMPTIONS = ["library call graph = RUN statements of each procedure as parsed 
 REQUIRED_COUNTERS = ["bundles_checked"]
 
 HOSTILE = ['RUN ecb_hdraw', 'run ecb_play("X")', "PROCEDURE foo", "procedure ecb_cls", ": STRING<<>>", "X: STRING<<>>Y",
-           "RUN", "A:B", "STRING<<>>", "RUN _ecb_width(1)", "(* RUN ecb_sound *)"]
+           "RUN", "A:B", "STRING<<>>", "RUN _ecb_width(1)", "(* RUN ecb_sound *)",
+           # characters that some line-splitting routines (but not the tool's grammar) treat as line ends
+           "PAGE\x0cTWO", "A\x0cPROCEDURE zed\x0cB", "X\x0bRUN ecb_sound", "L\x85M", "P\u2028Q\u2029R", "A\x1cB\x1dC\x1eD",
+           "T\x0c"]
 
 _LIBTEXT = {}
 
@@ -124,6 +127,13 @@ def run_case(case):
     out = conv["out"]
     detail = {"source": text[:800], "options": opts, "hostile_text": hostile, "hostile_where": where}
     procs, err = harness.parse_b09(out)
+    if procs is None and harness.parse_b09(plain["out"])[0] is not None:
+        # the same program without bundling is well-formed: bundling damaged the text
+        obs["key"] = "bundle-unparseable|%s" % where
+        obs["counters"]["bundles_checked"] = 1
+        obs["viols"].append({"sig": "C13/user-procedure-altered/unparseable-only-when-bundled",
+                             "detail": dict(detail, parse_error=err, emitted=out[-400:])})
+        return obs
     if procs is None:
         # C07 owns well-formedness; here only the bundle structure is judged
         obs["nontrivial"] = False
